@@ -37,6 +37,17 @@ theorem stored_signed (ops : List (Op Hash Sig)) (id : LogId) (s : Sth Hash Sig)
   obtain ⟨hk, idh, hid, hf, hv, _⟩ := parse_ok env hp
   exact ⟨hk, ⟨idh, hid, hf⟩, hv⟩
 
+/-- The same from any table whose rows parse (a pre-existing database written under the same
+    configuration), not only from the empty table. -/
+theorem stored_signed_from (db0 : Db Hash Sig) (h0 : Inv env db0) (ops : List (Op Hash Sig)) (id : LogId) (s : Sth Hash Sig)
+    (h : run env db0 ops id = some s) :
+    env.known id = true ∧
+    (∃ idh, env.idOf id = some idh ∧ (s.idField = none ∨ s.idField = some idh)) ∧
+    env.verify id s.ts s.size s.root s.sig = true := by
+  obtain ⟨p, hp⟩ := inv_run env ops db0 h0 id s h
+  obtain ⟨hk, idh, hid, hf, hv, _⟩ := parse_ok env hp
+  exact ⟨hk, ⟨idh, hid, hf⟩, hv⟩
+
 /-- **cosigns only signed STHs.** In any history, every reply that carries a cosignature carries it
     over an STH with a valid signature of the configured log that the call addressed; and after an
     `update` answered that way, the row of that log holds exactly the submitted raw STH. -/
@@ -53,40 +64,28 @@ theorem cosigned_signed (ops : List (Op Hash Sig)) (t : Tr Hash Sig CoSig)
   | getLogs => rw [hop] at hrep; simp [step] at hrep
   | getSTH id =>
     rw [hop] at hrep
-    simp only [step, getSTH] at hrep
-    cases hdb : t.pre id with
-    | none => simp [hdb] at hrep
-    | some raw =>
-      simp only [hdb] at hrep
-      cases hp : parse env id (.sth raw) with
-      | error e => simp [hp] at hrep
-      | ok p =>
-        simp only [hp, Reply.cosigned.injEq] at hrep
-        obtain ⟨hk, idh, hid, hf, hv, hpe⟩ := parse_ok env hp
-        refine ⟨id, Or.inl rfl, hk, ?_, ?_, ?_⟩
-        · rw [hrep.1, hpe]; exact hv
-        · rw [hrep.1, hpe, hid]
-        · intro n pf h; cases h
+    simp only [step] at hrep
+    obtain ⟨raw, hdb, hp, _⟩ := getSTH_cosigned env hrep.symm
+    obtain ⟨hk, idh, hid, hf, hv, hpe⟩ := parse_ok env hp
+    refine ⟨id, Or.inl rfl, hk, ?_, ?_, ?_⟩
+    · rw [hpe]; exact hv
+    · rw [hpe, hid]
+    · intro n pf h; cases h
   | update id raw pf =>
     rw [hop] at hrep hpost
     simp only [step] at hrep hpost
-    rcases update_spec env t.pre id raw pf with ⟨k, h1⟩ | ⟨s', f, h1, _⟩ | ⟨n, next, hraw, hacc, heq⟩
-    · rw [h1] at hrep; cases hrep
-    · rw [h1] at hrep; cases hrep
-    · rw [heq] at hrep hpost
-      simp only [Reply.cosigned.injEq] at hrep
-      obtain ⟨hk, idh, hid, hf, hv, hpe⟩ := parse_ok env hacc.parsed
-      refine ⟨id, Or.inr ⟨raw, pf, rfl⟩, hk, ?_, ?_, ?_⟩
-      · rw [hrep.1, hpe]; exact hv
-      · rw [hrep.1, hpe, hid]
-      · intro n' pf' h
-        simp only [Op.update.injEq] at h
-        obtain ⟨_, hr', _⟩ := h
-        rw [hraw] at hr'
-        cases hr'
-        refine ⟨?_, ?_⟩
-        · rw [hpost]; exact Db.set_same _ _ _
-        · rw [hrep.1]; exact hacc.parsed
+    obtain ⟨n, hraw, hacc, _, heq⟩ := update_cosigned env hrep.symm
+    rw [heq] at hpost
+    obtain ⟨hk, idh, hid, hf, hv, hpe⟩ := parse_ok env hacc.parsed
+    refine ⟨id, Or.inr ⟨raw, pf, rfl⟩, hk, ?_, ?_, ?_⟩
+    · rw [hpe]; exact hv
+    · rw [hpe, hid]
+    · intro n' pf' h
+      simp only [Op.update.injEq] at h
+      obtain ⟨_, hr', _⟩ := h
+      rw [hraw] at hr'
+      cases hr'
+      exact ⟨by rw [hpost]; exact Db.set_same _ _ _, hacc.parsed⟩
 
 /-! ## monotone -/
 
@@ -102,10 +101,10 @@ theorem step_monotone (db : Db Hash Sig) (op : Op Hash Sig) (id : LogId) (s : St
   | getLogs => exact ⟨s, h, Or.inl rfl⟩
   | update x raw pf =>
     simp only [step]
-    rcases update_spec env db x raw pf with ⟨k, h1⟩ | ⟨s', f, h1, _⟩ | ⟨n, next, hraw, hacc, heq⟩
-    · rw [h1]; exact ⟨s, h, Or.inl rfl⟩
-    · rw [h1]; exact ⟨s, h, Or.inl rfl⟩
-    · rw [heq]
+    have hset : ∀ (n next : Sth Hash Sig), raw = .sth n → Accepted env db x n pf next →
+        ∃ s', (db.set x n) id = some s' ∧ (s' = s ∨ (s.size < s'.size ∧ ∃ pf', Op.update x raw pf = .update id (.sth s') pf' ∧
+          verifyConsistency env.nodeH s.size s'.size pf' s.root s'.root = true)) := by
+      intro n next hraw hacc
       by_cases hx : id = x
       · subst hx
         refine ⟨n, Db.set_same _ _ _, Or.inr ?_⟩
@@ -114,6 +113,15 @@ theorem step_monotone (db : Db Hash Sig) (op : Op Hash Sig) (id : LogId) (s : St
         · rw [h] at hprev; cases hprev
           exact ⟨hlt, pf, by rw [hraw], hv⟩
       · exact ⟨s, by show (db.set x n) id = some s; rw [Db.set_other _ _ _ _ hx]; exact h, Or.inl rfl⟩
+    rcases update_spec env db x raw pf with ⟨k, _, h1⟩ | ⟨s', f, h1, _⟩ | ⟨n, next, c, hraw, hacc, _, heq⟩ | ⟨n, next, hraw, hacc, _, heq⟩
+    · rw [h1]; exact ⟨s, h, Or.inl rfl⟩
+    · rw [h1]; exact ⟨s, h, Or.inl rfl⟩
+    · rw [heq]; exact hset n next hraw hacc
+    · -- signing failed: the row is written or not, according to the order the code has; either way it only moves forward
+      rw [heq]
+      by_cases hg : Gen.witnessSignsBeforeCommit = true
+      · simp only [hg, if_true]; exact ⟨s, h, Or.inl rfl⟩
+      · simp only [hg, if_false]; exact hset n next hraw hacc
 
 variable {α : Type} (leafH : α → Hash) (emptyH : Hash)
 
@@ -188,16 +196,44 @@ theorem monotone_prefix (ops : List (Op Hash Sig)) (db : Db Hash Sig) (id : LogI
 
 /-! ## refused_unchanged -/
 
-/-- **refused_unchanged.** An update whose reply carries no cosignature leaves the whole table
-    unchanged; a reply that carries a raw STH carries the currently held one. -/
-theorem refused_unchanged (db : Db Hash Sig) (id : LogId) (raw : Raw Hash Sig) (pf : List Hash)
+/-- `refused_unchanged` for code that cosigns before it commits (the order is the regenerated fact
+    `Gen.witnessSignsBeforeCommit`, rewritten from witness.go on every run). -/
+theorem refused_unchanged_if_fixed (hfix : Gen.witnessSignsBeforeCommit = true)
+    (db : Db Hash Sig) (id : LogId) (raw : Raw Hash Sig) (pf : List Hash)
     (h : ∀ s c, (update env db id raw pf).2 ≠ .cosigned s c) :
     (update env db id raw pf).1 = db ∧
     (∀ s f, (update env db id raw pf).2 = .held s f → db id = some s) := by
-  rcases update_spec env db id raw pf with ⟨k, h1⟩ | ⟨s', f, h1, hd⟩ | ⟨n, next, hraw, hacc, heq⟩
+  rcases update_spec env db id raw pf with ⟨k, _, h1⟩ | ⟨s', f, h1, hd⟩ | ⟨n, next, c, hraw, hacc, _, heq⟩ | ⟨n, next, _, _, _, heq⟩
   · rw [h1]; exact ⟨rfl, fun s f hh => by cases hh⟩
   · rw [h1]; exact ⟨rfl, fun s f hh => by cases hh; exact hd⟩
-  · exact absurd (by rw [heq]) (h next (env.cosign next))
+  · exact absurd (by rw [heq]) (h next c)
+  · rw [heq, hfix]; exact ⟨rfl, fun s f hh => by cases hh⟩
+
+/-- **refused_unchanged.** An update whose reply carries no cosignature — an error of any kind,
+    *including a failed `signSTH`*, or the raw held STH — leaves the whole table unchanged; a reply that
+    carries a raw STH carries the currently held one. Unconditional since /repo 3ba70e2 (finding C19-1,
+    fixed): `Update` cosigns before `setSTH` commits; the proof discharges the order by evaluating the
+    regenerated `Gen.witnessSignsBeforeCommit`, so it stops building if the source stores first again. -/
+theorem refused_unchanged (db : Db Hash Sig) (id : LogId) (raw : Raw Hash Sig) (pf : List Hash)
+    (h : ∀ s c, (update env db id raw pf).2 ≠ .cosigned s c) :
+    (update env db id raw pf).1 = db ∧
+    (∀ s f, (update env db id raw pf).2 = .held s f → db id = some s) :=
+  refused_unchanged_if_fixed env (by decide) db id raw pf h
+
+/-- A failed signature in particular: an acceptable first-use update of a witness that cannot sign is
+    answered with the signing error and **nothing is stored** (before 3ba70e2 the row was written). -/
+theorem sign_failure_refused (db : Db Hash Sig) (id : LogId) (n next : Sth Hash Sig) (pf : List Hash)
+    (hp : parse env id (.sth n) = .ok next) (hd : db id = none) (hc : env.cosign next = none) :
+    update env db id (.sth n) pf = (db, .err .sign) := by
+  have hk := (parse_ok env hp).1
+  have hg : Gen.witnessSignsBeforeCommit = true := by decide
+  unfold update
+  rw [if_neg (by simp [hk])]
+  dsimp only
+  rw [hp]; dsimp only
+  rw [hd]; dsimp only
+  unfold accept
+  rw [hc]; simp [hg]
 
 /-- A validly signed STH that is **stale** (smaller than the held one), **inconsistent** (same size,
     other root) or comes with a proof the verifier rejects is answered with the held raw STH and
@@ -248,7 +284,7 @@ theorem same_head_answered_with_held (ops : List (Op Hash Sig)) (id : LogId) (n 
 theorem invalid_refused (db : Db Hash Sig) (id : LogId) (raw : Raw Hash Sig) (pf : List Hash)
     (h : ∀ p, parse env id raw ≠ .ok p) :
     ∃ k, update env db id raw pf = (db, .err k) := by
-  rcases update_spec env db id raw pf with ⟨k, h1⟩ | ⟨s', f, h1, hd⟩ | ⟨n, next, hraw, hacc, heq⟩
+  rcases update_spec env db id raw pf with ⟨k, _, h1⟩ | ⟨s', f, h1, hd⟩ | ⟨n, next, c, hraw, hacc, _, heq⟩ | ⟨n, next, hraw, hacc, _, _⟩
   · exact ⟨k, h1⟩
   · -- a `held` reply is only produced after the submitted STH parsed
     exfalso
@@ -264,31 +300,33 @@ theorem invalid_refused (db : Db Hash Sig) (id : LogId) (raw : Raw Hash Sig) (pf
         | ok p => exact h p hp
     · rw [if_pos (by simp [hk])] at h1; simp at h1
   · rw [hraw] at h; exact absurd hacc.parsed (h next)
+  · rw [hraw] at h; exact absurd hacc.parsed (h next)
 
 /-! ## accepted updates (so that none of the above is vacuous) -/
 
 /-- Trust on first use: a validly signed STH for a log without a row is stored and cosigned. -/
-theorem tofu (db : Db Hash Sig) (id : LogId) (n next : Sth Hash Sig) (pf : List Hash)
-    (hp : parse env id (.sth n) = .ok next) (hd : db id = none) :
-    update env db id (.sth n) pf = (db.set id n, .cosigned next (env.cosign next)) := by
+theorem tofu (db : Db Hash Sig) (id : LogId) (n next : Sth Hash Sig) (pf : List Hash) (c : CoSig)
+    (hp : parse env id (.sth n) = .ok next) (hd : db id = none) (hc : env.cosign next = some c) :
+    update env db id (.sth n) pf = (db.set id n, .cosigned next c) := by
   have hk := (parse_ok env hp).1
   unfold update
   rw [if_neg (by simp [hk])]
   dsimp only
   rw [hp]; dsimp only
-  rw [hd]
+  rw [hd]; dsimp only
+  unfold accept; rw [hc]
 
 /-- An honest log is followed: if the held head is the genuine head of the first `m` leaves and the
     new, validly signed head is the genuine head of all of `l` (`m < |l|`), the RFC 6962
     consistency proof is accepted, the new raw STH stored and cosigned. -/
-theorem honest_update_accepted (ops : List (Op Hash Sig)) (id : LogId) (n next held : Sth Hash Sig) (l : List α)
-    (hp : parse env id (.sth n) = .ok next)
+theorem honest_update_accepted (ops : List (Op Hash Sig)) (id : LogId) (n next held : Sth Hash Sig) (l : List α) (c : CoSig)
+    (hp : parse env id (.sth n) = .ok next) (hcs : env.cosign next = some c)
     (hh : run env Db.empty ops id = some held)
     (hm : held.size < l.length) (hroot : held.root = mth leafH env.nodeH emptyH (l.take held.size))
     (hn : n.size = l.length) (hnroot : n.root = mth leafH env.nodeH emptyH l) :
     update env (run env Db.empty ops) id (.sth n)
         (if held.size = 0 then [] else consProof leafH env.nodeH emptyH held.size l)
-      = ((run env Db.empty ops).set id n, .cosigned next (env.cosign next)) := by
+      = ((run env Db.empty ops).set id n, .cosigned next c) := by
   obtain ⟨prev, hpp⟩ := inv_run env ops Db.empty (inv_empty env) id held hh
   have hk := (parse_ok env hp).1
   have hf := parse_fields env hp
@@ -305,6 +343,7 @@ theorem honest_update_accepted (ops : List (Op Hash Sig)) (id : LogId) (n next h
   rw [hf.1, hf.2.1, hfp.1, hfp.2.1, hn, hnroot, hroot]
   rw [if_neg (by omega), if_neg (by omega)]
   rw [if_pos hc]
+  unfold accept; rw [hcs]
 
 end
 
@@ -320,42 +359,74 @@ structure Scheme (SK PK Msg S : Type) where
 section
 variable {Hash Sig SK PK Msg S : Type} [DecidableEq Hash]
 
-/-- **cosig_verifies.** If the witness cosigns by signing an encoding `enc` of the STH it returns
+/-- **cosig_verifies** (relative to the primitive and to the hypothesis `henv` that `signSTH` signs
+    `enc` of the very STH it returns — what the theorem adds is that *every* reply of *every* history
+    pairs the cosignature with that STH, for `GetSTH` as for `Update`; that `enc` is the real
+    `tls.Marshal(SignedTreeHead)` is the `cosin` correspondence + `cosigInput_inj` below).
+    If the witness cosigns by signing an encoding `enc` of the STH it returns
     with its key `wk`, then in every history every cosignature verifies under the witness' public key
     over (the encoding of) exactly the STH it accompanies. -/
 theorem cosig_verifies (sch : Scheme SK PK Msg S) (wk : SK) (enc : Sth Hash Sig → Msg)
-    (env : Env Hash Sig S) (henv : env.cosign = fun s => sch.sign wk (enc s))
+    (env : Env Hash Sig S) (henv : ∀ s c, env.cosign s = some c → c = sch.sign wk (enc s))
     (ops : List (Op Hash Sig)) (db : Db Hash Sig) (t : Tr Hash Sig S) (ht : t ∈ trace env db ops)
     (s : Sth Hash Sig) (c : S) (hr : t.reply = .cosigned s c) :
     sch.verify (sch.pub wk) (enc s) c = true := by
   obtain ⟨o1, o2, _, hpre, hpost, hrep⟩ := mem_trace env ops db t ht
   rw [hr] at hrep
-  have key : c = env.cosign s := by
+  have key : env.cosign s = some c := by
     cases hop : t.op with
     | getLogs => rw [hop] at hrep; simp [step] at hrep
     | getSTH id =>
       rw [hop] at hrep
-      simp only [step, getSTH] at hrep
-      cases hdb : t.pre id with
-      | none => simp [hdb] at hrep
-      | some raw =>
-        simp only [hdb] at hrep
-        cases hp : parse env id (.sth raw) with
-        | error e => simp [hp] at hrep
-        | ok p =>
-          simp only [hp, Reply.cosigned.injEq] at hrep
-          rw [hrep.1, hrep.2]
+      simp only [step] at hrep
+      obtain ⟨_, _, _, hc⟩ := getSTH_cosigned env hrep.symm
+      exact hc
     | update id raw pf =>
       rw [hop] at hrep
       simp only [step] at hrep
-      rcases update_spec env t.pre id raw pf with ⟨k, h1⟩ | ⟨s', f, h1, _⟩ | ⟨n, next, hraw, hacc, heq⟩
-      · rw [h1] at hrep; cases hrep
-      · rw [h1] at hrep; cases hrep
-      · rw [heq] at hrep
-        simp only [Reply.cosigned.injEq] at hrep
-        rw [hrep.1, hrep.2]
-  rw [key, henv]
+      obtain ⟨_, _, _, hc, _⟩ := update_cosigned env hrep.symm
+      exact hc
+  rw [henv s c key]
   exact sch.correct wk (enc s)
+
+/-! ### what is signed: `tls.Marshal(SignedTreeHead)` -/
+
+theorem beEnc_inj (w a b : Nat) (ha : a < 256 ^ w) (hb : b < 256 ^ w) (h : beEnc w a = beEnc w b) : a = b := by
+  have := congrArg beDec h
+  rwa [beDec_beEnc w a ha, beDec_beEnc w b hb] at this
+
+/-- **The signed bytes determine the STH.** `cosigInput` (the layout of `tls.Marshal(ct.SignedTreeHead)`,
+    compared with the real bytes on every run) is injective on well-formed heads: one cosignature cannot
+    be "over" two different (size, timestamp, root, log signature, log ID). With `cosig_verifies`
+    instantiated at `enc s := cosigInput …` this is what "verifies over the STH it accompanies" means at
+    byte level; the tie of `cosigInput` to the Go encoder is by correspondence, not by proof. -/
+theorem cosigInput_inj (size ts size' ts' ha sa ha' sa' : Nat) (root root' sig sig' lid lid' : Bytes)
+    (h1 : size < 2 ^ 64) (h1' : size' < 2 ^ 64) (h2 : ts < 2 ^ 64) (h2' : ts' < 2 ^ 64)
+    (hr : root.length = 32) (hr' : root'.length = 32)
+    (h3 : ha < 256) (h3' : ha' < 256) (h4 : sa < 256) (h4' : sa' < 256)
+    (hs : sig.length < 2 ^ 16) (hs' : sig'.length < 2 ^ 16)
+    (h : cosigInput size ts root ha sa sig lid = cosigInput size' ts' root' ha' sa' sig' lid') :
+    size = size' ∧ ts = ts' ∧ root = root' ∧ ha = ha' ∧ sa = sa' ∧ sig = sig' ∧ lid = lid' := by
+  unfold cosigInput at h
+  simp only [List.append_assoc, List.cons_append, List.nil_append] at h
+  obtain ⟨e1, h⟩ := List.append_inj h (by simp [beEnc_length])
+  obtain ⟨e2, h⟩ := List.append_inj h (by simp [beEnc_length])
+  obtain ⟨e3, h⟩ := List.append_inj h (by rw [hr, hr'])
+  simp only [List.cons.injEq] at h
+  obtain ⟨e4, e5, h⟩ := h
+  obtain ⟨e6, h⟩ := List.append_inj h (by simp [beEnc_length])
+  have hl : sig.length = sig'.length := beEnc_inj 2 _ _ (by simpa using hs) (by simpa using hs') e6
+  obtain ⟨e7, e8⟩ := List.append_inj h hl
+  have u8 : ∀ a b : Nat, a < 256 → b < 256 → UInt8.ofNat a = UInt8.ofNat b → a = b := by
+    intro a b ha hb hab
+    have := congrArg UInt8.toNat hab
+    simp only [UInt8.toNat_ofNat'] at this
+    omega
+  exact ⟨beEnc_inj 8 _ _ (by simpa using h1) (by simpa using h1') e1,
+    beEnc_inj 8 _ _ (by simpa using h2) (by simpa using h2') e2, e3, u8 _ _ h3 h3' e4, u8 _ _ h4 h4' e5, e7, e8⟩
+
+example : cosigInput 1 2 (List.replicate 32 0xaa) 4 3 [1, 2, 3] (List.replicate 32 0xbb) =
+    beEnc 8 1 ++ beEnc 8 2 ++ List.replicate 32 0xaa ++ [4, 3, 0, 3, 1, 2, 3] ++ List.replicate 32 0xbb := by decide
 
 end
 
@@ -367,7 +438,7 @@ def env : Env Nat Bool Nat where
   logList := ["A", "B"]
   idOf := fun id => if id = "A" then some [1] else if id = "B" then some [2] else none
   verify := fun _ _ _ _ s => s
-  cosign := fun s => s.size + 1000
+  cosign := fun s => some (s.size + 1000)
   nodeH := fun a b => 1000 * a + b + 7
 
 def leafH (d : Nat) : Nat := d + 1
@@ -381,7 +452,7 @@ end Ex
 
 /-- `stored_signed` / `tofu`: the first valid STH is stored. -/
 example : (run Ex.env Db.empty [.update "A" (.sth Ex.h1) []]) "A" = some Ex.h1 := by
-  simp [run, step, update, parse, Env.known, Ex.env, Ex.h1, idMismatch, Db.empty, Db.set]
+  simp [run, step, update, accept, parse, Env.known, Ex.env, Ex.h1, idMismatch, Db.empty, Db.set]
 
 /-- an unsigned STH and an STH for an unknown log are refused (hypotheses of `invalid_refused`). -/
 example : ∀ p, parse Ex.env "A" (.sth Ex.unsigned) ≠ .ok p := by
@@ -409,7 +480,12 @@ example : Ex.forged.size = Ex.h3.size ∧ Ex.forged.root ≠ Ex.h3.root := by
   simp [Ex.forged, Ex.h3]
 
 /-- `cosig_verifies`: a (toy) scheme satisfying `Scheme.correct` exists, and `Ex.env` cosigns with it. -/
-example : ∃ sch : Scheme Nat Nat Nat Nat, Ex.env.cosign = fun s => sch.sign 1000 s.size :=
-  ⟨⟨id, fun k m => m + k, fun pk m s => s == m + pk, by intro k m; simp⟩, rfl⟩
+example : ∃ sch : Scheme Nat Nat Nat Nat, ∀ s c, Ex.env.cosign s = some c → c = sch.sign 1000 s.size :=
+  ⟨⟨id, fun k m => m + k, fun pk m s => s == m + pk, by intro k m; simp⟩, by
+    intro s c h; simp only [Ex.env, Option.some.injEq] at h; exact h.symm⟩
+
+/-- `sign_failure_refused`: a witness that cannot sign (hypothesis `hc`) is a configuration of the model. -/
+example : ({ Ex.env with cosign := fun _ => none } : Env Nat Bool Nat).cosign Ex.h1 = none := rfl
+example : Gen.witnessSignsBeforeCommit = true := by decide
 
 end C19
